@@ -17,7 +17,7 @@ use std::sync::{Arc, Mutex};
 use std::task::{Context, Poll, RawWaker, RawWakerVTable, Waker};
 
 use lightning::chain::chainmonitor::{ChainMonitor, Persist};
-use lightning::chain::channelmonitor::{ChannelMonitor, ChannelMonitorUpdate};
+use lightning::chain::channelmonitor::{ChannelMonitor, ChannelMonitorUpdate, MonitorEvent};
 use lightning::chain::{BlockLocator, ChannelMonitorUpdateStatus, Watch};
 use lightning::io;
 use lightning::ln::functional_test_utils::*;
@@ -40,6 +40,7 @@ enum Entry {
 	Remove(Key, bool),
 	CallBegin(String, Option<Vec<u8>>),
 	CallEnd { mon_id: u64, mon_bytes: Vec<u8>, ok: bool },
+	Mark(String),
 }
 
 #[derive(Default)]
@@ -176,7 +177,7 @@ fn panic_msg(e: Box<dyn std::any::Any + Send>) -> String {
 	}
 }
 
-fn run_sync(seed: u64, mp: u64, n_pay: usize, max_crash: usize, n_faults: usize) {
+fn run_sync(seed: u64, mp: u64, n_pay: usize, max_crash: usize, n_faults: usize, finale: bool) {
 	let mut rng = Rng(seed ^ (mp.wrapping_mul(0x9E37)));
 	let rec = Arc::new(Rec::default());
 	let chanmon_cfgs = create_chanmon_cfgs(2);
@@ -252,6 +253,65 @@ fn run_sync(seed: u64, mp: u64, n_pay: usize, max_crash: usize, n_faults: usize)
 				},
 			}
 		}
+		// ---- finale: the monitor learns of the funding spend BEFORE the ChannelManager does, the
+		// ChainMonitor re-persists it, then the peer's next commitment update is REFUSED by
+		// `update_monitor` (state still changes) and must be persisted as a full monitor; afterwards a
+		// post-close preimage update. Everything goes through the real ChainMonitor.
+		if finale {
+			use lightning::chain::Confirm;
+			use lightning::ln::channelmanager::PaymentId;
+			use lightning::ln::msgs::{BaseMessageHandler, ChannelMessageHandler};
+			use lightning::ln::outbound_payment::RecipientOnionFields;
+			while a2b < 4 {
+				send_payment(&nodes[0], &[&nodes[1]], 1_200_000);
+				a2b += 1;
+			}
+			let node_b_id = nodes[1].node.get_our_node_id();
+			// payment 1: B -> A, routed but not yet claimed
+			let (preimage_1, _hash_1, ..) = route_payment(&nodes[1], &[&nodes[0]], 300_000);
+			rec.log.lock().unwrap().push(Entry::Mark("funding-spend-seen-by-monitor-only".to_string()));
+			let bs_commitment_tx = lightning::get_local_commitment_txn!(nodes[1], chan_id);
+			let (block_hash, height) = nodes[0].best_block_info();
+			let block = create_dummy_block(block_hash, height + 1, vec![bs_commitment_tx[0].clone()]);
+			let txdata: Vec<_> = block.txdata.iter().enumerate().collect();
+			nodes[0].chain_monitor.chain_monitor.transactions_confirmed(&block.header, &txdata, height + 1);
+			nodes[0].chain_monitor.chain_monitor.best_block_updated(&block.header, height + 1);
+			let mut prev_hash = block.header.block_hash();
+			nodes[0].blocks.lock().unwrap().push((block, height + 1));
+			for new_height in height + 2..=height + 6 {
+				let block = create_dummy_block(prev_hash, new_height, Vec::new());
+				prev_hash = block.header.block_hash();
+				nodes[0].chain_monitor.chain_monitor.best_block_updated(&block.header, new_height);
+				nodes[0].blocks.lock().unwrap().push((block, new_height));
+			}
+			// payment 2: B -> A; A's monitor applies but refuses the resulting update
+			let (route, hash_2, _, secret_2) = lightning::get_route_and_payment_hash!(&nodes[1], nodes[0], 300_000);
+			nodes[1]
+				.node
+				.send_payment_with_route(route, hash_2, RecipientOnionFields::secret_only(secret_2, 300_000), PaymentId(hash_2.0))
+				.unwrap();
+			check_added_monitors(&nodes[1], 1);
+			let mut events = nodes[1].node.get_and_clear_pending_msg_events();
+			let payment_event = SendEvent::from_event(events.remove(0));
+			rec.log.lock().unwrap().push(Entry::Mark("refused-update".to_string()));
+			nodes[0].node.handle_update_add_htlc(node_b_id, &payment_event.msgs[0]);
+			nodes[0].node.handle_commitment_signed(node_b_id, &payment_event.commitment_msg[0]);
+			nodes[0].chain_monitor.added_monitors.lock().unwrap().clear();
+			// post-close preimage update
+			rec.log.lock().unwrap().push(Entry::Mark("post-close-preimage".to_string()));
+			nodes[0].node.claim_funds(preimage_1);
+			nodes[0].chain_monitor.added_monitors.lock().unwrap().clear();
+			let _ = nodes[0].node.get_and_clear_pending_events();
+			nodes[0].chain_monitor.added_monitors.lock().unwrap().clear();
+			let _ = nodes[0].node.get_and_clear_pending_msg_events();
+			let _ = nodes[0].node.get_and_clear_pending_events();
+		}
+		// the ChainMonitor's own copy at the end, for the final comparison
+		{
+			let mon = nodes[0].chain_monitor.chain_monitor.get_monitor(chan_id).unwrap();
+			rec.log.lock().unwrap().push(Entry::CallBegin("E".to_string(), None));
+			rec.log.lock().unwrap().push(Entry::CallEnd { mon_id: mon.get_latest_update_id(), mon_bytes: mon.encode(), ok: true });
+		}
 		// Node::drop asserts on pending state; nothing of that matters here.
 		std::mem::forget(nodes);
 	}
@@ -269,6 +329,7 @@ fn run_sync(seed: u64, mp: u64, n_pay: usize, max_crash: usize, n_faults: usize)
 				in_call = true;
 			},
 			Entry::CallEnd { .. } => in_call = false,
+			Entry::Mark(_) => {},
 			_ => {
 				if in_call {
 					ops_by_call.last_mut().unwrap().push(op_str(e, &mon_key).unwrap());
@@ -298,6 +359,7 @@ fn run_sync(seed: u64, mp: u64, n_pay: usize, max_crash: usize, n_faults: usize)
 				call_end.push((*mon_id, mon_bytes.clone(), names[cur_call].clone()));
 				cur_call += 1;
 			},
+			Entry::Mark(m) => println!("R mark {} at_op={} at_call={}", m, ops.len(), cur_call),
 			_ => ops.push((cur_call, e.clone())),
 		}
 	}
@@ -343,7 +405,7 @@ fn run_sync(seed: u64, mp: u64, n_pay: usize, max_crash: usize, n_faults: usize)
 			// last completed persist call (not a cleanup) among calls [0, completed_before)
 			let mut lc = None;
 			for c in 0..completed_before.min(call_end.len()) {
-				if !call_end[c].2.starts_with('C') && !call_end[c].2.starts_with('A') {
+				if !call_end[c].2.starts_with('C') && !call_end[c].2.starts_with('A') && !call_end[c].2.starts_with('E') {
 					lc = Some(c);
 				}
 			}
@@ -377,6 +439,7 @@ fn run_sync(seed: u64, mp: u64, n_pay: usize, max_crash: usize, n_faults: usize)
 						(format!("many{}", v.len()), "0".to_string())
 					} else {
 						let (bb, mon) = &v[0];
+						let ev_r = mon.get_and_clear_pending_monitor_events();
 						let id = mon.get_latest_update_id();
 						let mut eq = "0".to_string();
 						// every recorded in-memory monitor with this update id (any call)
@@ -390,7 +453,7 @@ fn run_sync(seed: u64, mp: u64, n_pay: usize, max_crash: usize, n_faults: usize)
 							if let Some((bb2, m2)) = read_monitor(bytes, keys) {
 								if bb2 == *bb {
 									same_tip = true;
-									if m2 == *mon {
+									if mon_eq(mon, &ev_r, &m2) {
 										eq = "1".to_string();
 										break;
 									}
@@ -421,6 +484,59 @@ fn run_sync(seed: u64, mp: u64, n_pay: usize, max_crash: usize, n_faults: usize)
 			}
 		}
 	}
+	// ---- the end state against the ChainMonitor's own copy ("E")
+	if let Some((e_id, e_bytes, _)) = call_end.iter().find(|(_, _, nm)| nm.starts_with('E')) {
+		for mode in 0..2 {
+			let st = RecStore::new(None);
+			{
+				let mut m = st.map.lock().unwrap();
+				for (_, e) in ops.iter() {
+					match e {
+						Entry::Write(key, v) => {
+							m.insert(key.clone(), v.clone());
+						},
+						Entry::Remove(key, lazy) => {
+							if !*lazy || mode == 0 {
+								m.remove(key);
+							}
+						},
+						_ => {},
+					}
+				}
+			}
+			let p2 = MonitorUpdatingPersister::new(&st, &chanmon_cfgs[0].logger, mp, keys, keys, &chanmon_cfgs[0].tx_broadcaster, &chanmon_cfgs[0].fee_estimator);
+			let res = panic::catch_unwind(AssertUnwindSafe(|| p2.read_all_channel_monitors_with_updates()));
+			let (rec_s, eq_s) = match res {
+				Err(e) => (format!("PANIC:{}", panic_msg(e).replace(' ', "_")), "0"),
+				Ok(Err(e)) => (format!("ERR:{}", format!("{}", e).replace(' ', "_")), "0"),
+				Ok(Ok(v)) if v.len() != 1 => (format!("many{}", v.len()), "0"),
+				Ok(Ok(v)) => {
+					let (bb, mon) = &v[0];
+					let ev_r = mon.get_and_clear_pending_monitor_events();
+					let eq = match read_monitor(e_bytes, keys) {
+						Some((bb2, m2)) => {
+							if let Ok(d) = std::env::var("H_MUP_DUMP") {
+								let _ = std::fs::write(format!("{}/rec-{}.bin", d, mode), mon.encode());
+								let _ = std::fs::write(format!("{}/mem-{}.bin", d, mode), m2.encode());
+							}
+							if mon.get_latest_update_id() != *e_id {
+								"0"
+							} else if mon_eq(mon, &ev_r, &m2) {
+								"1"
+							} else if bb2 != *bb {
+								"tip"
+							} else {
+								"0"
+							}
+						},
+						None => "0",
+					};
+					(format!("{}", mon.get_latest_update_id()), eq)
+				},
+			};
+			println!("R final mp={} lazy={} rec={} chainmonitor_id={} eq={}", mp, mode, rec_s, e_id, eq_s);
+		}
+	}
 	println!(
 		"R summary mp={} calls={} ops={} stray_ops={} crash_points={} recovered_equal={} recovered_other_tip={} before_first_persist={} violations={}",
 		mp, calls.len(), n, stray, points.len(), n_ok, n_tip, n_none, n_viol
@@ -428,6 +544,16 @@ fn run_sync(seed: u64, mp: u64, n_pay: usize, max_crash: usize, n_faults: usize)
 	if n_faults > 0 {
 		replay_faults(seed, mp, n_faults, &call_end, &upd_bytes, &mon_key, &chanmon_cfgs[0]);
 	}
+}
+
+/// Recovered monitor against an in-memory monitor. `pending_monitor_events` are delivered at least once
+/// by design: events the ChannelManager already took from the in-memory monitor stay in the stored full
+/// monitor until the next full persist, so the recovered monitor may hold MORE pending events, never
+/// fewer. Everything else must be equal.
+fn mon_eq(rec: &ChannelMonitor<TestChannelSigner>, ev_r: &Vec<MonitorEvent>, mem: &ChannelMonitor<TestChannelSigner>) -> bool {
+	// `rec` has had its events taken into `ev_r` already (it is compared with several candidates)
+	let ev_m = mem.get_and_clear_pending_monitor_events();
+	ev_m.iter().all(|e| ev_r.contains(e)) && *rec == *mem
 }
 
 /// Store whose operations fail at scripted indices (every read/list/write/remove counts).
@@ -547,7 +673,7 @@ fn replay_faults(
 			if name.starts_with('C') {
 				let lazy = name.ends_with('1');
 				status_ok = p.cleanup_stale_updates(lazy).is_ok();
-			} else if name.starts_with('A') {
+			} else if name.starts_with('A') || name.starts_with('E') {
 				continue;
 			} else {
 				let (_, mon) = match read_monitor(mon_b, keys) {
@@ -654,6 +780,7 @@ fn replay_faults(
 						format!("many{}", v.len())
 					} else {
 						let id = v[0].1.get_latest_update_id();
+						let ev_r = v[0].1.get_and_clear_pending_monitor_events();
 						let mut eq = false;
 						let mut same_tip = false;
 						for (cid, bytes, nm) in call_end.iter() {
@@ -661,7 +788,7 @@ fn replay_faults(
 								if let Some((bb2, m2)) = read_monitor(bytes, keys) {
 									if bb2 == v[0].0 {
 										same_tip = true;
-										if m2 == v[0].1 { eq = true; break; }
+										if mon_eq(&v[0].1, &ev_r, &m2) { eq = true; break; }
 									}
 								}
 							}
@@ -956,7 +1083,8 @@ fn main() {
 			let n_pay: usize = args[4].parse().unwrap();
 			let max_crash: usize = args[5].parse().unwrap();
 			let n_faults: usize = args.get(6).and_then(|s| s.parse().ok()).unwrap_or(0);
-			let r = panic::catch_unwind(|| run_sync(seed, mp, n_pay, max_crash, n_faults));
+			let finale = args.get(7).map(|s| s == "1").unwrap_or(false);
+			let r = panic::catch_unwind(|| run_sync(seed, mp, n_pay, max_crash, n_faults, finale));
 			if let Err(e) = r {
 				println!("R harness-panic mp={} {}", mp, panic_msg(e).replace('\n', " "));
 			}
